@@ -143,6 +143,10 @@ def run(ctx):
     ctx.rule("R12.7", "legacy @service: a registration survives trigger_init only if the function is handed to its context (so stop/reload reaches it); failed decorator sets roll it back", floor=2)
     legacy_service_reachability(ctx, program, "R12.7")
 
+    ctx.rule("R12.8", "new subsystem: every documented @service form (no name, one name, several names) registers exactly the declared names and stop() removes exactly those; "
+             "a refused name rolls back the names registered before it", floor=8)
+    service_forms(ctx, program, "R12.8")
+
     ctx.rule("R12.3", "service handlers pass trigger_type='service', the call context and the call data, run the function in its own task and return its result", floor=2)
     for uid in ("eval.py::EvalFunc.trigger_init.pyscript_service_factory.pyscript_service_handler", "decorators/service.py::ServiceDecorator._service_callback"):
         f = program.func(uid)
@@ -335,3 +339,89 @@ def legacy_service_reachability(ctx, program, rid):
               msg=f"legacy @service: trigger_init can raise on {len(leaks_exc)} path(s) after a service was registered (e.g. {sorted(set(leaks_exc))[:3]}) and the caller only logs the exception: "
               f"the registered alias is never removed (a refused later alias, an invalid later decorator)", key="service registered, definition failed (raise)",
               node=caller, rel="eval.py")
+
+
+def service_forms(ctx, program, rid):
+    """ServiceDecorator: args schema -> service_validator -> validate -> start -> stop composed on finite name lists."""
+    val_uid, v_uid = "decorators/service.py::service_validator", "decorators/service.py::ServiceDecorator.validate"
+    st_uid, sp_uid = "decorators/service.py::ServiceDecorator.start", "decorators/service.py::ServiceDecorator.stop"
+    # (a) the schema must not bound the number of names (documented: "Multiple arguments ... register multiple names")
+    mod = program.module("decorators/service.py")
+    bound = None
+    n_schema = 0
+    for n in ast.walk(mod):
+        if isinstance(n, ast.ClassDef) and n.name == "ServiceDecorator":
+            for st in n.body:
+                if isinstance(st, ast.Assign) and any(norm(t) == "args_schema" for t in st.targets):
+                    n_schema += 1
+                    for c in ast.walk(st.value):
+                        if isinstance(c, ast.Call) and (call_name(c) or "").endswith("Length"):
+                            for kw in c.keywords:
+                                if kw.arg == "max" and isinstance(kw.value, ast.Constant) and isinstance(kw.value.value, int) and kw.value.value < 3:
+                                    bound = kw.value.value
+    if n_schema != 1:
+        raise AnalysisError("ServiceDecorator.args_schema not found")
+    ctx.check(bound is None, rid, "decorators/service.py::ServiceDecorator", "argument schema accepts several names",
+              msg=f"ServiceDecorator.args_schema limits @service to {bound} name(s): @service('a.b', 'c.d') - documented as registering both names - is rejected as a whole in the new subsystem "
+              f"(the legacy subsystem registers both)", key="service schema bounds the number of names", node=program.func(v_uid), rel="decorators/service.py")
+
+    def reg_factory(fail_at):
+        def reg(i, n, a, k, c, o):
+            idx = c.heap.get("$n", Const(0)).v
+            if fail_at is not None and idx == fail_at:
+                o.add("raise", c.set("$exc", ExcV("ValueError", "refused")))
+                return []
+            return [(c.hset("$n", Const(idx + 1)).emit(("call", "register", tuple(a[1:3]), (), 0)), Const(None))]
+        return reg
+
+    for names in ([], ["p.a"], ["p.a", "q.b"], ["p.a", "q.b", "r.c"], ["p.a", "p.a"]):
+        want = [tuple(x.split(".")) for x in dict.fromkeys(names)] or [("pyscript", "f")]
+        for fail_at in [None] + list(range(len(want))):
+            summ = {"Function.service_register": reg_factory(fail_at),
+                    "Function.service_remove": lambda i, n, a, k, c, o: [(c.emit(("call", "remove", tuple(a[1:3]), (), 0)), Const(None))],
+                    "self.dm.ast_ctx.global_ctx.get_name": lambda i, n, a, k, c, o: [(c, Const("file.x"))],
+                    "self.dm.ast_ctx.get_global_ctx_name": lambda i, n, a, k, c, o: [(c, Const("file.x"))],
+                    "ast.get_docstring": lambda i, n, a, k, c, o: [(c, Const("doc"))], "typing.cast": lambda i, n, a, k, c, o: [(c, a[1])],
+                    "super().validate": lambda i, n, a, k, c, o: [(c, Const(None))], "State.get_service_params": lambda i, n, a, k, c, o: [(c, Const(None))],
+                    "async_set_service_schema": lambda i, n, a, k, c, o: [(c, Const(None))], "OrderedDict": lambda i, n, a, k, c, o: [(c, DictV([]))]}
+            pol = FlowPolicy(program, may_raise_all=False, cancel=False, summaries=summ,
+                             globals_={"DOMAIN": Const("pyscript"), "SERVICE_RELOAD": Const("reload"), "SERVICE_JUPYTER_KERNEL_START": Const("jupyter_kernel_start"), "vol": Sym(("g", "vol"))},
+                             inline={"ServiceDecorator.stop", "self.stop", "ServiceDecorator.start"})
+            from ..absint import NodeV
+            fd = NodeV("FunctionDef", {"name": Const("f"), "args": NodeV("arguments", {"posonlyargs": ListV((), "list"), "args": ListV((), "list")}, "fd.args")}, "fd")
+            bad = None
+            o0 = run_flow(program, val_uid, pol, args={"args": ListV(tuple(Const(n) for n in names), "list")})
+            rets = [c.env.get("$ret") for k, c, d in exits(o0) if k == "return"]
+            if len(rets) != 1 or not isinstance(rets[0], ListV):
+                bad = f"service_validator({names}) does not return a list ({[d for k, c, d in exits(o0)]})"
+            else:
+                heap = {"self.args": rets[0], "self.kwargs": DictV([]), "self.dm": ObjV("dm", "FunctionDecoratorManager"), "dm.func_name": Const("f"),
+                        "dm.eval_func": ObjV("ef", "EvalFunc"), "ef.func_def": fd}
+                o1 = run_flow(program, v_uid, pol, args={"self": ObjV("self", "ServiceDecorator")}, heap=heap)
+                ex1 = exits(o1)
+                if not ex1 or any(k != "return" for k, c, d in ex1):
+                    bad = f"validate() fails: {[d for k, c, d in ex1]}"
+                for k, c, d in ex1:
+                    if k != "return":
+                        continue
+                    o2 = run_flow(program, st_uid, pol, args={"self": ObjV("self", "ServiceDecorator")}, heap=dict(c.heap))
+                    for k2, c2, d2 in exits(o2):
+                        ev = [(e[1], tuple(x.v for x in e[2])) for e in c2.trace if e[0] == "call" and e[1] in ("register", "remove")]
+                        regs = [x for t, x in ev if t == "register"]
+                        rems = [x for t, x in ev if t == "remove"]
+                        if fail_at is None:
+                            if k2 != "return" or regs != want or rems:
+                                bad = f"start() registers {regs} (removes {rems}, {d2}); declared names {want}"
+                                continue
+                            o3 = run_flow(program, sp_uid, pol, args={"self": ObjV("self", "ServiceDecorator")}, heap=dict(c2.heap))
+                            for k3, c3, d3 in exits(o3):
+                                rem3 = sorted(tuple(x.v for x in e[2]) for e in c3.trace if e[0] == "call" and e[1] == "remove")
+                                if k3 != "return" or rem3 != sorted(want):
+                                    bad = f"stop() removes {rem3}, start() registered {want}"
+                        else:
+                            if k2 != "raise":
+                                bad = f"start() completes although name #{fail_at + 1} was refused"
+                            elif sorted(regs) != sorted(rems):
+                                bad = f"name #{fail_at + 1} refused: names {regs} registered before it, {rems} removed again - the rest stay registered (the manager only stops decorators whose start() completed)"
+            label = f"@service{tuple(names)}" + (f", name #{fail_at + 1} refused" if fail_at is not None else "")
+            ctx.check(bad is None, rid, st_uid, label, msg=f"new subsystem {label}: {bad}", key=f"service form {label}", node=program.func(st_uid), rel="decorators/service.py")
